@@ -510,6 +510,19 @@ impl Vm {
         }
 
         self.load_frame();
+        #[cfg(feature = "verif_hooks")]
+        verif::event(|| {
+            format!(
+                "load_fiber to={:#x} caller={:#x} arg={} agree={}",
+                self.unsafe_fiber as usize,
+                self.active_fiber()
+                    .caller
+                    .map(|c| (*c).as_ptr() as usize)
+                    .unwrap_or(0),
+                arg.is_some() as u8,
+                self.verif_fiber_ptrs_agree() as u8
+            )
+        });
         Ok(())
     }
 
@@ -533,6 +546,15 @@ impl Vm {
         }
         self.poke(0, arg.unwrap_or_default());
         self.load_frame();
+        #[cfg(feature = "verif_hooks")]
+        verif::event(|| {
+            format!(
+                "unload_fiber to={:#x} arg={} agree={}",
+                self.unsafe_fiber as usize,
+                arg.is_some() as u8,
+                self.verif_fiber_ptrs_agree() as u8
+            )
+        });
         Ok(())
     }
 
@@ -540,6 +562,8 @@ impl Vm {
         debug_assert!(self.modules.len() == 1);
 
         loop {
+            #[cfg(feature = "verif_hooks")]
+            self.verif_on_instruction()?;
             if cfg!(feature = "debug_trace") {
                 println!("          {}", self.active_fiber().stack);
                 let offset = self.active_chunk.code_offset(self.ip);
@@ -1077,6 +1101,8 @@ impl Vm {
     }
 
     fn jump_finally_impl(&mut self) {
+        #[cfg(feature = "verif_hooks")]
+        verif::event(|| format!("jump_finally fiber={:#x}", self.unsafe_fiber as usize));
         let return_value = self.peek(0);
         self.active_fiber_mut().return_ip = Some(self.ip);
         self.active_fiber_mut().return_value = return_value;
@@ -1093,6 +1119,15 @@ impl Vm {
     }
 
     fn end_finally_impl(&mut self) -> Result<(), Error> {
+        #[cfg(feature = "verif_hooks")]
+        verif::event(|| {
+            format!(
+                "end_finally fiber={:#x} handling={} pending_return={}",
+                self.unsafe_fiber as usize,
+                self.handling_exception as u8,
+                self.active_fiber().return_ip.is_some() as u8
+            )
+        });
         if self.handling_exception {
             self.unwind_stack()?;
         }
@@ -1120,6 +1155,8 @@ impl Vm {
     }
 
     fn throw_impl(&mut self) -> Result<(), Error> {
+        #[cfg(feature = "verif_hooks")]
+        verif::event(|| format!("throw fiber={:#x}", self.unsafe_fiber as usize));
         self.handling_exception = true;
         self.active_fiber_mut().error_ip = Some(self.ip);
         self.unwind_stack()
@@ -1271,6 +1308,15 @@ impl Vm {
     fn start_import_impl(&mut self) -> Result<(), Error> {
         let path = self.read_string();
 
+        #[cfg(feature = "verif_hooks")]
+        verif::event(|| {
+            let state = match self.modules.get(&path) {
+                Some(m) if m.borrow().imported => "cached",
+                Some(_) => "loading",
+                None => "absent",
+            };
+            format!("import_start path={} state={}", path.as_str(), state)
+        });
         if let Some(module) = self.modules.get(&path).map(|m| m.as_gc()) {
             if module.borrow().imported {
                 self.push(Value::ObjModule(module));
@@ -1322,6 +1368,8 @@ impl Vm {
             .peek(0)
             .try_as_obj_module()
             .expect("Expected ObjModule.");
+        #[cfg(feature = "verif_hooks")]
+        verif::event(|| format!("import_finish path={}", module.borrow().path.as_str()));
         module.borrow_mut().imported = true;
     }
 
@@ -1533,6 +1581,17 @@ impl Vm {
 
     fn unwind_stack(&mut self) -> Result<(), Error> {
         let exc_object = self.peek(0);
+        #[cfg(feature = "verif_hooks")]
+        verif::event(|| {
+            let fiber = self.active_fiber();
+            format!(
+                "unwind fiber={:#x} handlers={} stack={} frames={}",
+                self.unsafe_fiber as usize,
+                fiber.exc_handlers.len(),
+                fiber.stack.len(),
+                fiber.frames.len()
+            )
+        });
 
         let exc_handler = self.active_fiber_mut().pop_exc_handler();
         let handler = if let Some(h) = exc_handler {
@@ -1549,6 +1608,21 @@ impl Vm {
         self.handling_exception = handler.has_catch_block();
         self.active_fiber_mut().current_frame_mut().unwrap().ip = handler.catch_ip;
         self.load_frame();
+        #[cfg(feature = "verif_hooks")]
+        verif::event(|| {
+            let fiber = self.active_fiber();
+            format!(
+                "unwound fiber={:#x} handlers={} stack={} frames={} init_stack={} frame_count={} catch_off={} handling={}",
+                self.unsafe_fiber as usize,
+                fiber.exc_handlers.len(),
+                fiber.stack.len(),
+                fiber.frames.len(),
+                handler.init_stack_size,
+                handler.frame_count,
+                self.active_chunk.code_offset(handler.catch_ip),
+                self.handling_exception as u8
+            )
+        });
 
         Ok(())
     }
@@ -1637,6 +1711,15 @@ impl Vm {
 
         if let Some(upvalue) = upvalue {
             if upvalue.borrow().is_open_with_pred(|v| v == loc_addr) {
+                #[cfg(feature = "verif_hooks")]
+                verif::event(|| {
+                    format!(
+                        "capture fiber={:#x} slot={} cell={:#x} new=0",
+                        self.unsafe_fiber as usize,
+                        location,
+                        upvalue.as_ptr() as usize
+                    )
+                });
                 return upvalue;
             }
         }
@@ -1649,6 +1732,15 @@ impl Vm {
         }
 
         created_upvalue.borrow_mut().next = upvalue;
+        #[cfg(feature = "verif_hooks")]
+        verif::event(|| {
+            format!(
+                "capture fiber={:#x} slot={} cell={:#x} new=1",
+                self.unsafe_fiber as usize,
+                location,
+                created_upvalue.as_gc().as_ptr() as usize
+            )
+        });
         created_upvalue.as_gc()
     }
 
@@ -1938,6 +2030,205 @@ impl Vm {
     }
 }
 
+/// Verification hooks (feature `verif_hooks`); see /verif/DESIGN.md.
+#[cfg(feature = "verif_hooks")]
+impl Vm {
+    fn verif_fiber_ptrs_agree(&self) -> bool {
+        match self.fiber.as_ref() {
+            Some(f) => (**f).as_ptr() as usize == self.unsafe_fiber as usize,
+            None => self.unsafe_fiber.is_null(),
+        }
+    }
+
+    fn verif_on_instruction(&mut self) -> Result<(), Error> {
+        if !verif::instruction_hook_active() {
+            return Ok(());
+        }
+        if !verif::take_step() {
+            return Err(error!(
+                ErrorKind::RuntimeError,
+                "verif: step budget exhausted."
+            ));
+        }
+        if verif::trace_instructions() {
+            let (chunk, offset, opcode, height, handlers, frames) = {
+                let fiber = self.active_fiber();
+                let frame = fiber.current_frame().unwrap();
+                let chunk = frame.closure.function.chunk;
+                (
+                    chunk.as_ptr() as usize,
+                    self.active_chunk.code_offset(self.ip),
+                    unsafe { *self.ip },
+                    fiber.stack.len() as isize - frame.slot_base as isize,
+                    fiber.exc_handlers.len(),
+                    fiber.frames.len(),
+                )
+            };
+            verif::instruction(chunk, offset, opcode, height, handlers, frames);
+        }
+        Ok(())
+    }
+
+    /// State that must be clean between runs: (handling_exception, class definition in progress,
+    /// active fiber's stack length, frame count, handler count, fiber pointers agree).
+    pub fn verif_residue(&self) -> (bool, bool, usize, usize, usize, bool) {
+        let (stack, frames, handlers) = match self.fiber.as_ref() {
+            Some(f) => {
+                let f = f.borrow();
+                (f.stack.len(), f.frames.len(), f.exc_handlers.len())
+            }
+            None => (0, 0, 0),
+        };
+        (
+            self.handling_exception,
+            self.working_class_def.is_some(),
+            stack,
+            frames,
+            handlers,
+            self.verif_fiber_ptrs_agree(),
+        )
+    }
+
+    /// Identity (address) of the interned string object for `data`.
+    pub fn verif_string_id(&mut self, data: &str) -> usize {
+        self.new_gc_obj_string(data).as_ptr() as usize
+    }
+
+    /// Layout of the real intern table: (capacity, size, occupied (slot, address) pairs).
+    pub fn verif_string_store_dump(&self) -> (usize, usize, Vec<(usize, usize)>) {
+        self.string_store.verif_dump()
+    }
+}
+
+#[cfg(feature = "verif_hooks")]
+pub mod verif {
+    use std::cell::RefCell;
+
+    use super::string_store::ObjStringStore;
+    use crate::memory::{Gc, Root};
+    use crate::object::ObjString;
+
+    #[derive(Default)]
+    struct State {
+        events_on: bool,
+        events: Vec<String>,
+        steps_left: Option<u64>,
+        trace_instructions: bool,
+        instructions: Vec<(usize, usize, u8, isize, usize, usize)>,
+        max_instructions: usize,
+    }
+
+    thread_local! {
+        static STATE: RefCell<State> = RefCell::new(State::default());
+    }
+
+    pub fn set_events(on: bool) {
+        STATE.with(|s| s.borrow_mut().events_on = on);
+    }
+
+    pub fn take_events() -> Vec<String> {
+        STATE.with(|s| std::mem::take(&mut s.borrow_mut().events))
+    }
+
+    /// `Some(n)`: the interpreter stops with a RuntimeError after n more instructions.
+    pub fn set_step_budget(budget: Option<u64>) {
+        STATE.with(|s| s.borrow_mut().steps_left = budget);
+    }
+
+    /// Record (chunk address, offset, opcode, height above frame base, handler depth, frames) for
+    /// up to `max` executed instructions.
+    pub fn set_trace_instructions(max: usize) {
+        STATE.with(|s| {
+            let mut s = s.borrow_mut();
+            s.trace_instructions = max > 0;
+            s.max_instructions = max;
+        });
+    }
+
+    pub fn take_instructions() -> Vec<(usize, usize, u8, isize, usize, usize)> {
+        STATE.with(|s| std::mem::take(&mut s.borrow_mut().instructions))
+    }
+
+    pub(crate) fn event(f: impl FnOnce() -> String) {
+        let on = STATE.with(|s| s.borrow().events_on);
+        if on {
+            let text = f();
+            STATE.with(|s| s.borrow_mut().events.push(text));
+        }
+    }
+
+    pub(super) fn instruction_hook_active() -> bool {
+        STATE.with(|s| {
+            let s = s.borrow();
+            s.steps_left.is_some() || s.trace_instructions
+        })
+    }
+
+    pub(super) fn take_step() -> bool {
+        STATE.with(|s| {
+            let mut s = s.borrow_mut();
+            match s.steps_left {
+                Some(0) => false,
+                Some(n) => {
+                    s.steps_left = Some(n - 1);
+                    true
+                }
+                None => true,
+            }
+        })
+    }
+
+    pub(super) fn trace_instructions() -> bool {
+        STATE.with(|s| s.borrow().trace_instructions)
+    }
+
+    pub(super) fn instruction(
+        chunk: usize,
+        offset: usize,
+        opcode: u8,
+        height: isize,
+        handlers: usize,
+        frames: usize,
+    ) {
+        STATE.with(|s| {
+            let mut s = s.borrow_mut();
+            if s.instructions.len() < s.max_instructions {
+                s.instructions
+                    .push((chunk, offset, opcode, height, handlers, frames));
+            }
+        });
+    }
+
+    /// The real intern table, driven directly with caller-chosen hashes.
+    pub struct StringStore {
+        store: ObjStringStore,
+    }
+
+    impl StringStore {
+        pub fn new() -> Self {
+            StringStore {
+                store: ObjStringStore::new(),
+            }
+        }
+
+        /// What `Vm::new_gc_obj_string` does, with the hash supplied by the caller: returns the
+        /// identity (address) of the string object and whether it was already present.
+        pub fn intern(&mut self, hash: u64, text: &str) -> (usize, bool) {
+            if let Some(string) = self.store.get((hash, text)) {
+                return (string.as_gc().as_ptr() as usize, true);
+            }
+            let string = Root::new(ObjString::new(Gc::dangling(), text, hash));
+            let id = string.as_gc().as_ptr() as usize;
+            self.store.insert(string);
+            (id, false)
+        }
+
+        pub fn dump(&self) -> (usize, usize, Vec<(usize, usize)>) {
+            self.store.verif_dump()
+        }
+    }
+}
+
 mod string_store {
     use std::mem;
 
@@ -2009,6 +2300,19 @@ mod string_store {
 
             self.entries = new_entries;
             self.mask = mask;
+        }
+    }
+
+    #[cfg(feature = "verif_hooks")]
+    impl ObjStringStore {
+        pub(super) fn verif_dump(&self) -> (usize, usize, Vec<(usize, usize)>) {
+            let slots = self
+                .entries
+                .iter()
+                .enumerate()
+                .filter_map(|(i, e)| e.as_ref().map(|r| (i, r.as_gc().as_ptr() as usize)))
+                .collect();
+            (self.entries.len(), self.size, slots)
         }
     }
 
